@@ -11,6 +11,9 @@ From AV Require Import Multipart.ScanProofs.
 From AV Require Import Multipart.ParserProofs.
 From AV Require Import Run.RunC15.
 From AV Require Import Multipart.Roundtrip.
+From AV Require Import Multipart.Stream2.
+From AV Require Import Multipart.Roundtrip2.
+From AV Require Import Multipart.Preamble.
 
 (* The parse buffer never exceeds buffer_limit: for every header oracle, every code variant,
    every upstream script, every limit and every sequence of polls by the consumer
@@ -175,40 +178,67 @@ Proof. cbv zeta. split; [apply cleanb_clean; reflexivity|]. split; reflexivity. 
    end, re-poll after Pending only when woken); [norm] drops the Pending entries and joins
    adjacent data chunks of the transcript; [chunks script] = the bytes the script delivers. *)
 
-(* C15_roundtrip_any_chunking: for every header oracle, boundary (non-empty, no LF), valid part
-   list (0..n parts), epilogue, and EVERY upstream script — any chunking of the body, empty
-   chunks, Pending anywhere — the parser delivers exactly the rendered parts (name,
-   Content-Length, exact content bytes), each finished, then the clean end; never an error,
-   never a hang (the run is complete within |script| + |body| + 1 polls).
-   Hypotheses that remain: no preamble before the first boundary; buffer_limit larger than
-   the body (no Overflow on the way); no stream error event. *)
+(* C15_roundtrip_any_chunking (final form): for every header oracle, boundary (non-empty, no
+   LF), optional preamble [ls] (lines without LF that are not boundary lines), valid part list
+   (0..n parts), epilogue, and EVERY upstream script — any chunking of the stream, empty chunks,
+   Pending anywhere — the parser delivers exactly the rendered parts (name, Content-Length,
+   exact content bytes), each finished, then the clean end; never an error, never a hang (the
+   run is complete within |script| + |stream| + 1 polls).
+   The parser buffer may be far smaller than the body: buffer_limit only has to hold what
+   the parser must see whole — a boundary line (|boundary| + 6), every header block, every
+   preamble line; field contents stream through it in pieces.
+   Hypotheses that remain: no stream-error event; the consumer reads every field to its end. *)
 Theorem C15_roundtrip_any_chunking :
-  forall (hdr : bytes -> hres) (bnd : bytes) (fs : list fld) (epilogue : bytes)
+  forall (hdr : bytes -> hres) (bnd : bytes) (ls : list bytes) (fs : list fld) (epilogue : bytes)
          (script : list ev) (limit : N) (fuel : nat),
-  bnd <> [] -> ~ In 10 bnd -> Forall (fld_ok hdr bnd) fs -> no_err script ->
-  chunks script = body bnd close_line epilogue fs ->
-  lenN (chunks script) < limit ->
+  bnd <> [] -> ~ In 10 bnd -> Forall (pline_ok bnd limit) ls -> Forall (fld_ok hdr bnd) fs ->
+  no_err script ->
+  N.of_nat (length bnd + 6) <= limit -> Forall (fun f => lenN (fh f) <= limit) fs ->
+  chunks script = pre ls ++ body bnd close_line epilogue fs ->
   (length script + length (chunks script) < fuel)%nat ->
   norm (drive hdr false false false None fuel (mp_new bnd script limit) AtMp) = exp_fields TEnd fs.
-Proof. exact roundtrip_any_chunking. Qed.
+Proof. exact roundtrip_full. Qed.
 
-(* C15_segmentation (whole parser): two scripts that carry the same valid body — however
-   differently cut and interleaved with Pending — deliver the same parts. *)
+(* C15_segmentation (whole parser): two scripts that carry the same valid stream — however
+   differently cut and interleaved with Pending, through buffers of different sizes — deliver
+   the same parts. *)
 Theorem C15_segmentation :
-  forall hdr bnd fs epilogue s1 s2 l1 l2 f1 f2,
-  bnd <> [] -> ~ In 10 bnd -> Forall (fld_ok hdr bnd) fs ->
-  no_err s1 -> no_err s2 ->
-  chunks s1 = body bnd close_line epilogue fs -> chunks s2 = chunks s1 ->
-  lenN (chunks s1) < l1 -> lenN (chunks s1) < l2 ->
+  forall hdr bnd ls fs epilogue s1 s2 l1 l2 f1 f2,
+  bnd <> [] -> ~ In 10 bnd -> Forall (pline_ok bnd l1) ls -> Forall (pline_ok bnd l2) ls ->
+  Forall (fld_ok hdr bnd) fs -> no_err s1 -> no_err s2 ->
+  N.of_nat (length bnd + 6) <= l1 -> N.of_nat (length bnd + 6) <= l2 ->
+  Forall (fun f => lenN (fh f) <= l1) fs -> Forall (fun f => lenN (fh f) <= l2) fs ->
+  chunks s1 = pre ls ++ body bnd close_line epilogue fs -> chunks s2 = chunks s1 ->
   (length s1 + length (chunks s1) < f1)%nat -> (length s2 + length (chunks s1) < f2)%nat ->
   norm (drive hdr false false false None f1 (mp_new bnd s1 l1) AtMp) =
   norm (drive hdr false false false None f2 (mp_new bnd s2 l2) AtMp).
-Proof. exact segmentation_independent. Qed.
+Proof. exact segmentation_full. Qed.
+
+(* C15_truncation_is_error (whole parser): the stream (preamble + body, no epilogue) is cut
+   anywhere at least 3 bytes before its end — i.e. strictly inside  ... "--" boundary "--"; the
+   cut points "--" boundary "--" and "--" boundary "--" CR are the optional final CRLF — and
+   what is left is delivered under ANY chunking, through any sufficient buffer: the run ends
+   with an ERROR after a prefix of the rendered parts ([tpre]: whole items, the last data chunk
+   possibly cut short); never the clean end, never a hang (a hang would end the transcript with
+   an unwoken Pending, not with TErr). This is the clause the seeded change C15-2 broke. *)
+Theorem C15_truncation_is_error :
+  forall (hdr : bytes -> hres) (bnd : bytes) (ls : list bytes) (fs : list fld) (missing : bytes)
+         (script : list ev) (limit : N) (fuel : nat),
+  bnd <> [] -> ~ In 10 bnd -> Forall (pline_ok bnd limit) ls -> Forall (fld_ok hdr bnd) fs ->
+  no_err script ->
+  N.of_nat (length bnd + 6) <= limit -> Forall (fun f => lenN (fh f) <= limit) fs ->
+  pre ls ++ body bnd close_line [] fs = chunks script ++ missing -> (3 <= length missing)%nat ->
+  (length script + length (pre ls ++ body bnd close_line [] fs) < fuel)%nat ->
+  exists t e,
+    norm (drive hdr false false false None fuel (mp_new bnd script limit) AtMp) = t ++ [TErr e] /\
+    tpre t (exp_fields TEnd fs).
+Proof. exact truncated_full. Qed.
 
 (* C15_no_silent_merge (whole parser): if the line that follows the last delimiter
    CRLF "--" boundary is malformed (neither CRLF = another part, nor "--" CRLF = end), every
    part before it is still delivered exactly — no field spans a delimiter, nothing is merged —
-   and the run ends with Err(BoundaryMissing), under every chunking. *)
+   and the run ends with Err(BoundaryMissing), under every chunking (proved for bodies without
+   preamble and buffer_limit > |body|). *)
 Theorem C15_no_silent_merge :
   forall hdr bnd fs (x rest : bytes) script limit fuel,
   bnd <> [] -> ~ In 10 bnd -> Forall (fld_ok hdr bnd) fs -> fs <> [] -> no_err script ->
@@ -231,3 +261,18 @@ Example C15_roundtrip_example :
      TField (Some [6]) None; TFieldEnd;
      TField (Some [7]) (Some 8); TData [13;10;45;45;97;98;13;10]; TFieldEnd; TEnd].
 Proof. exact roundtrip_example. Qed.
+
+(* non-vacuity of the final forms: a two-line preamble (one line is the near-boundary "--abx"),
+   the 3-part body, an epilogue, buffer_limit 8 = |"ab"| + 6, one byte per chunk with Pending:
+   exactly the parts; and the same stream cut after 12 bytes: Err(Incomplete) *)
+Example C15_full_example :
+  Forall (pline_ok [97;98] 8) ex_pre /\
+  norm (drive ex_hdr false false false None 2000
+          (mp_new [97;98] (flat_map (fun b => [EChunk [b]; EPending])
+                                    (pre ex_pre ++ body [97;98] close_line [101;102] ex_fs)) 8) AtMp)
+  = exp_fields TEnd ex_fs /\
+  norm (drive ex_hdr false false false None 2000
+          (mp_new [97;98] (flat_map (fun b => [EChunk [b]; EPending])
+                                    (firstn 12 (pre ex_pre ++ ex_body))) 8) AtMp)
+  = [TErr EIncomplete].
+Proof. exact full_example. Qed.
